@@ -3,15 +3,24 @@ import AwsVerif.Proofs.C08.Main
 /-!
 C08 — thread scheduler delivers each task once, on its own thread, whatever the timing.
 
-All theorems quantify over every well-formed set of client programs (`WF`: reference
-discipline per thread, no task scheduled twice — any number of client threads) and over *every*
-schedule `acts : List Act` of the transition system `Model/ThreadSched.lean` (scheduler thread,
-client threads, spurious wake-ups, clock ticks), for the code as it is now (`Cfg.fixed`).
-They are consequences of one inductive invariant (`Proofs/C08/Inv.lean`, preserved by every
-step: `Proofs/C08/StepSched.lean`, `StepClient.lean`).  `WFStrict` (a cancel targets a task its
-thread scheduled) is the API contract; none of the theorems needs it.
+All theorems quantify over every well-formed set of client programs and task functions
+(`WF progs cbs`: reference discipline per client thread; no task pushed twice, whether by client
+operations or by task functions — any number of client threads; a task function may re-enter the
+scheduler with one schedule / cancel call when it is invoked) and over *every* schedule
+`acts : List Act` of the transition system `Model/ThreadSched.lean` (scheduler thread, client
+threads, spurious wake-ups, clock ticks), for the code as it is now (`Cfg.fixed`).  They are
+consequences of one inductive invariant (`Proofs/C08/Inv.lean`, preserved by every step:
+`Proofs/C08/StepSched.lean`, `StepClient.lean`).  `WFStrict` (a cancel targets a task its thread
+scheduled) is the API contract; none of the theorems needs it.
 
-The last three theorems are regression witnesses: the two pre-fix variants of the model
+Exactly-once and no-leak carry the remaining well-formedness clause for re-entrant task functions,
+`NoReentryAfterLastRelease`: in the run at hand no task function invoked *by the destroy callback*
+(reference count already zero) called schedule / cancel.  Task functions invoked by the scheduler
+thread — with RUN, or with CANCELED through an explicit cancel — re-enter freely.
+`c08_no_canceled_reentry_suffices` gives a static sufficient condition;
+`c08_reentry_after_last_release_*` document what the code does at the excluded point.
+
+The `c08_prefix_*` theorems are regression witnesses: the two pre-fix variants of the model
 (`drain := false`: before 04fad6b; `guardCancel := false`: before 797252a) violate
 exactly-once / no-leak / at-most-once on explicit short schedules.
 -/
@@ -19,11 +28,12 @@ namespace AwsVerif.Props.C08
 open AwsVerif.ThreadSched AwsVerif.Proofs.C08
 
 /-- the state reached by the current code from the initial state under schedule `acts` -/
-abbrev reach (progs : List (List Op)) (acts : List Act) : Sys := run Cfg.fixed (init progs) acts
+abbrev reach (progs : List (List Op)) (cbs : Cbs) (acts : List Act) : Sys := run Cfg.fixed (init progs cbs) acts
 
 structure Safety (s : Sys) : Prop where
   /-- every scheduled task is in exactly one of: a hand-over queue, a cancellation record with the
-  removed flag, the inner scheduler, the invocation log; a task not yet scheduled is in none -/
+  removed flag, the inner scheduler (incl. the batch `run_all` is working through), the invocation
+  log; a task not yet scheduled is in none -/
   one_place : ∀ t,
     (handOver s).count t + (remTasks (recs s)).count t + (innerTasks s).count t + (logTasks s).count t
       = if t ∈ s.scheduled then 1 else 0
@@ -35,8 +45,8 @@ structure Safety (s : Sys) : Prop where
   /-- once the final release has returned no thread can take a step (so nothing is invoked) -/
   quiet : s.released = true → ∀ a, a.isThread = true → step Cfg.fixed s a = none
 
-theorem c08_safety (progs : List (List Op)) (hwf : WF progs) (acts : List Act) :
-    Safety (reach progs acts) := by
+theorem c08_safety (progs : List (List Op)) (cbs : Cbs) (hwf : WF progs cbs) (acts : List Act) :
+    Safety (reach progs cbs acts) := by
   have h := inv_run hwf acts
   refine ⟨one_place_of_inv h, ?_, ?_, quiet_of_released h⟩
   · intro e he
@@ -46,50 +56,77 @@ theorem c08_safety (progs : List (List Op)) (hwf : WF progs) (acts : List Act) :
   · intro e he; exact (h.t.logInv e he).2
 
 /-- nothing is invoked after the final release returned: whatever happens next, the log stays -/
-theorem c08_log_frozen_after_release (progs : List (List Op)) (hwf : WF progs) (acts more : List Act)
-    (hr : (reach progs acts).released = true) :
-    (reach progs (acts ++ more)).log = (reach progs acts).log := by
-  show (run Cfg.fixed (init progs) (acts ++ more)).log = _
+theorem c08_log_frozen_after_release (progs : List (List Op)) (cbs : Cbs) (hwf : WF progs cbs) (acts more : List Act)
+    (hr : (reach progs cbs acts).released = true) :
+    (reach progs cbs (acts ++ more)).log = (reach progs cbs acts).log := by
+  show (run Cfg.fixed (init progs cbs) (acts ++ more)).log = _
   rw [run_append]
   exact (log_frozen (inv_run hwf acts) hr more).1
 
 /-- no task is invoked twice (this is where 797252a matters) -/
-theorem c08_at_most_once (progs : List (List Op)) (hwf : WF progs) (acts : List Act) (t : Task) :
-    (logTasks (reach progs acts)).count t ≤ 1 :=
+theorem c08_at_most_once (progs : List (List Op)) (cbs : Cbs) (hwf : WF progs cbs) (acts : List Act) (t : Task) :
+    (logTasks (reach progs cbs acts)).count t ≤ 1 :=
   at_most_once_of_inv (inv_run hwf acts) t
 
-/-- at termination (all client programs finished, final release returned) every task any client
-scheduled has exactly one log entry, and nothing else has one (this is where 04fad6b matters) -/
-theorem c08_exactly_once (progs : List (List Op)) (hwf : WF progs) (acts : List Act)
-    (hterm : terminated (reach progs acts) = true) (t : Task) :
-    (logTasks (reach progs acts)).count t = if t ∈ progs.flatMap schedTasks then 1 else 0 := by
-  have h := inv_run hwf acts
-  have h1 : (logTasks (reach progs acts)).count t = (progs.flatMap schedTasks).count t :=
-    (exactly_once_of_inv h hterm t).1
-  have h2 : (progs.flatMap schedTasks).count t ≤ 1 := h.t.wf1 t
-  by_cases hm : t ∈ progs.flatMap schedTasks
-  · have := List.count_pos_iff.mpr hm; simp only [hm, if_true]; omega
-  · have := List.count_eq_zero.mpr hm; simp only [hm, if_false]; omega
+/-- no task function is invoked while the invoking thread holds the hand-over mutex: whenever a step
+makes the log grow, the thread that takes the step is not the owner of the mutex (so a task function
+that calls schedule / cancel — which lock that mutex — cannot self-deadlock) -/
+theorem c08_callbacks_run_unlocked (progs : List (List Op)) (cbs : Cbs) (hwf : WF progs cbs) (acts : List Act)
+    (a : Act) (s' : Sys) (hs : step Cfg.fixed (reach progs cbs acts) a = some s')
+    (hl : s'.log ≠ (reach progs cbs acts).log) :
+    ∃ k, a.thread = some k ∧ (reach progs cbs acts).mutex ≠ some k :=
+  callbacks_unlocked_of_inv (inv_run hwf acts) a hs hl
 
-/-- every reachable state that is not final has an enabled thread step (clock ticks do not count),
-and the mutex is never held across a wait (condition-variable wait, join) -/
-theorem c08_no_deadlock (progs : List (List Op)) (hwf : WF progs) (acts : List Act) :
-    (terminated (reach progs acts) = false →
-      ∃ a, a.isThread = true ∧ (step Cfg.fixed (reach progs acts) a).isSome = true) ∧
-    (((reach progs acts).st.pc = .blocked ∨ ∃ b, (reach progs acts).st.pc = .reacq b) →
-      (reach progs acts).mutex ≠ some 0) ∧
-    (∀ (j : Nat) (c : Client), (reach progs acts).clients[j]? = some c → c.pc = .dJoin →
-      (reach progs acts).mutex ≠ some (j + 1)) := by
+/-- at termination (all client programs finished, final release returned), in a run without re-entry
+after the last release: every task that was scheduled — by a client or by a task function — has
+exactly one log entry, nothing else has one, and every schedule operation of every client program has
+been carried out (this is where 04fad6b matters) -/
+theorem c08_exactly_once (progs : List (List Op)) (cbs : Cbs) (hwf : WF progs cbs) (acts : List Act)
+    (hterm : terminated (reach progs cbs acts) = true) (hno : NoReentryAfterLastRelease (reach progs cbs acts))
+    (t : Task) :
+    (logTasks (reach progs cbs acts)).count t = (if t ∈ (reach progs cbs acts).scheduled then 1 else 0) ∧
+    (t ∈ progs.flatMap schedTasks → t ∈ (reach progs cbs acts).scheduled) := by
+  have h := inv_run hwf acts
+  have h1 : (logTasks (reach progs cbs acts)).count t = (reach progs cbs acts).scheduled.count t :=
+    (exactly_once_of_inv h hterm hno t).1
+  have h2 : (progs.flatMap schedTasks).count t ≤ (reach progs cbs acts).scheduled.count t :=
+    (exactly_once_of_inv h hterm hno t).2
+  have h3 : (reach progs cbs acts).scheduled.count t ≤ 1 := h.p.sched_le t
+  constructor
+  · by_cases hm : t ∈ (reach progs cbs acts).scheduled
+    · have := List.count_pos_iff.mpr hm; simp only [hm, if_true]; omega
+    · have := List.count_eq_zero.mpr hm; simp only [hm, if_false]; omega
+  · intro hin
+    have := List.count_pos_iff.mpr hin
+    exact List.count_pos_iff.mp (by omega)
+
+/-- every reachable state that is not final has an enabled thread step (clock ticks do not count) —
+also with re-entrant task functions —, and the mutex is never held across a wait
+(condition-variable wait, join) -/
+theorem c08_no_deadlock (progs : List (List Op)) (cbs : Cbs) (hwf : WF progs cbs) (acts : List Act) :
+    (terminated (reach progs cbs acts) = false →
+      ∃ a, a.isThread = true ∧ (step Cfg.fixed (reach progs cbs acts) a).isSome = true) ∧
+    (((reach progs cbs acts).st.pc = .blocked ∨ ∃ b, (reach progs cbs acts).st.pc = .reacq b) →
+      (reach progs cbs acts).mutex ≠ some 0) ∧
+    (∀ (j : Nat) (c : Client), (reach progs cbs acts).clients[j]? = some c → c.pc = .dJoin →
+      (reach progs cbs acts).mutex ≠ some (j + 1)) := by
   have h := inv_run hwf acts
   exact ⟨no_deadlock_of_inv h, (no_mutex_across_wait h).1, (no_mutex_across_wait h).2⟩
 
-/-- every cancellation record is freed at most once at any time, and exactly once at termination -/
-theorem c08_no_leak (progs : List (List Op)) (hwf : WF progs) (acts : List Act) (id : Nat) :
-    (reach progs acts).freed.count id ≤ 1 ∧
-    (terminated (reach progs acts) = true →
-      (reach progs acts).freed.count id = if id < (reach progs acts).nextRec then 1 else 0) := by
+/-- every cancellation record is freed at most once at any time, and — in a run without re-entry
+after the last release — exactly once at termination -/
+theorem c08_no_leak (progs : List (List Op)) (cbs : Cbs) (hwf : WF progs cbs) (acts : List Act) (id : Nat) :
+    (reach progs cbs acts).freed.count id ≤ 1 ∧
+    (terminated (reach progs cbs acts) = true → NoReentryAfterLastRelease (reach progs cbs acts) →
+      (reach progs cbs acts).freed.count id = if id < (reach progs cbs acts).nextRec then 1 else 0) := by
   have h := inv_run hwf acts
-  exact ⟨no_leak_of_inv h id, fun ht => no_leak_terminated h ht id⟩
+  exact ⟨no_leak_of_inv h id, fun ht hm => no_leak_terminated h ht hm id⟩
+
+/-- a static sufficient condition for `NoReentryAfterLastRelease`: task functions re-enter only when
+invoked with RUN -/
+theorem c08_no_canceled_reentry_suffices (progs : List (List Op)) (cbs : Cbs) (hn : NoCanceledReentry cbs)
+    (acts : List Act) : NoReentryAfterLastRelease (reach progs cbs acts) :=
+  static_no_misuse hn acts
 
 /-! ### Regression witnesses: the pre-fix variants violate the properties -/
 
@@ -112,7 +149,7 @@ theorem c08_prefix_no_drain_violates_exactly_once :
 /-- `schedule_now(0); cancel(0); release` with the cancel after the task was handed over: before
 04fad6b the queued cancellation record is never freed -/
 def f2bProgs : List (List Op) := [[.scheduleNow 0, .cancel 0, .release]]
-def f2bActs : List Act := clientSteps 0 4 ++ schedSteps 9 ++ clientSteps 0 7 ++ schedSteps 6 ++ clientSteps 0 3
+def f2bActs : List Act := clientSteps 0 4 ++ schedSteps 10 ++ clientSteps 0 7 ++ schedSteps 7 ++ clientSteps 0 3
 
 theorem c08_prefix_no_drain_leaks_record :
     WF f2bProgs ∧
@@ -123,7 +160,7 @@ theorem c08_prefix_no_drain_leaks_record :
 
 /-- `schedule_now(0); <task runs>; cancel(0)`: before 797252a the cancellation that lost the race is
 still applied and task 0 is invoked a second time (RUN, then CANCELED) -/
-def f5Acts : List Act := clientSteps 0 4 ++ schedSteps 9 ++ clientSteps 0 4 ++ schedSteps 11
+def f5Acts : List Act := clientSteps 0 4 ++ schedSteps 10 ++ clientSteps 0 4 ++ schedSteps 12
 
 theorem c08_prefix_unguarded_cancel_violates_at_most_once :
     WF f2bProgs ∧
@@ -132,16 +169,71 @@ theorem c08_prefix_unguarded_cancel_violates_at_most_once :
        { task := 0, status := .canceled, thread := 0, time := 0 }] := by
   decide
 
+/-! ### What the code does when a task function re-enters after the last release -/
+
+/-- `schedule_future(0, UINT64_MAX); release`, and task 0's function schedules task 1 when it is
+invoked with CANCELED: task 0 is cancelled by the clean-up on the releasing thread, its function's
+`schedule_now(1)` puts task 1 into the scheduling queue, which nobody looks at again — the run
+terminates with task 1 stranded there, never invoked -/
+def lateProgs : List (List Op) := [[.scheduleFuture 0 U64MAX, .release]]
+def lateCbs : Cbs := [{ task := 0, status := .canceled, op := .scheduleNow 1 }]
+def lateActs : List Act := clientSteps 0 7 ++ schedSteps 1 ++ clientSteps 0 13
+
+theorem c08_reentry_after_last_release_loses_task :
+    WF lateProgs lateCbs ∧
+    terminated (reach lateProgs lateCbs lateActs) = true ∧
+    (reach lateProgs lateCbs lateActs).misuse = true ∧
+    (reach lateProgs lateCbs lateActs).scheduled = [0, 1] ∧
+    (reach lateProgs lateCbs lateActs).schedQ = [1] ∧
+    (logTasks (reach lateProgs lateCbs lateActs)) = [0] := by
+  decide
+
+/-- the same with a function that cancels another task: the cancellation record it queues during the
+clean-up is never freed -/
+def lateProgs2 : List (List Op) := [[.scheduleFuture 0 U64MAX, .scheduleFuture 2 (U64MAX - 1), .release]]
+def lateCbs2 : Cbs := [{ task := 0, status := .canceled, op := .cancel 2 }]
+def lateActs2 : List Act := clientSteps 0 11 ++ schedSteps 1 ++ clientSteps 0 16
+
+theorem c08_reentry_after_last_release_leaks_record :
+    WF lateProgs2 lateCbs2 ∧
+    terminated (reach lateProgs2 lateCbs2 lateActs2) = true ∧
+    (reach lateProgs2 lateCbs2 lateActs2).misuse = true ∧
+    (reach lateProgs2 lateCbs2 lateActs2).nextRec = 1 ∧
+    (reach lateProgs2 lateCbs2 lateActs2).freed = [] ∧
+    (logTasks (reach lateProgs2 lateCbs2 lateActs2)) = [2, 0] := by
+  decide
+
 /-! ### The hypotheses are satisfiable and the theorems are not vacuous -/
 
 /-- the same schedules on the code as it is: the stranded task is invoked as canceled by the
 releasing thread (thread id 1), and the late cancellation is skipped -/
-example : terminated (reach f2Progs (f2Acts ++ clientSteps 0 4)) = true ∧
-    (reach f2Progs (f2Acts ++ clientSteps 0 4)).log = [{ task := 0, status := .canceled, thread := 1, time := 0 }] := by
+example : terminated (reach f2Progs [] (f2Acts ++ clientSteps 0 8)) = true ∧
+    (reach f2Progs [] (f2Acts ++ clientSteps 0 8)).log = [{ task := 0, status := .canceled, thread := 1, time := 0 }] := by
   decide
 
-example : (reach f2bProgs f5Acts).log = [{ task := 0, status := .run, thread := 0, time := 0 }] ∧
-    (reach f2bProgs f5Acts).freed = [0] := by
+example : (reach f2bProgs [] f5Acts).log = [{ task := 0, status := .run, thread := 0, time := 0 }] ∧
+    (reach f2bProgs [] f5Acts).freed = [0] := by
+  decide
+
+/-- a task at UINT64_MAX that is the only thing pending at the final release is cancelled by it -/
+example : terminated (reach lateProgs [] lateActs) = true ∧
+    (reach lateProgs [] lateActs).log = [{ task := 0, status := .canceled, thread := 1, time := 0 }] := by
+  decide
+
+/-- re-entry on the scheduler thread: task 0 is cancelled explicitly, its function (CANCELED)
+schedules task 1, which then runs; task 1's function (RUN) cancels itself too late: skipped -/
+def reProgs : List (List Op) := [[.scheduleFuture 0 U64MAX, .cancel 0, .release]]
+def reCbs : Cbs := [{ task := 0, status := .canceled, op := .scheduleNow 1 }, { task := 1, status := .run, op := .cancel 1 }]
+def reActs : List Act :=
+  clientSteps 0 4 ++ schedSteps 9 ++ clientSteps 0 4 ++ schedSteps 60 ++ clientSteps 0 8 ++ schedSteps 12 ++ clientSteps 0 12
+
+example : WFStrict reProgs reCbs := by decide
+
+set_option maxRecDepth 16000 in
+example : terminated (reach reProgs reCbs reActs) = true ∧
+    NoReentryAfterLastRelease (reach reProgs reCbs reActs) ∧
+    (reach reProgs reCbs reActs).log.map (fun e => (e.task, e.status, e.thread)) = [(0, .canceled, 0), (1, .run, 0)] ∧
+    (reach reProgs reCbs reActs).freed = [0, 1] := by
   decide
 
 /-- a terminating schedule of a two-client program set with a timed task that runs at its time -/
@@ -150,12 +242,12 @@ def demoProgs : List (List Op) := [[.scheduleFuture 0 5, .release], [.scheduleNo
 example : WFStrict demoProgs := by decide
 
 def demoActs : List Act :=
-  clientSteps 0 4 ++ clientSteps 1 4 ++ [.tick 7] ++ schedSteps 10 ++ clientSteps 1 12 ++ schedSteps 8 ++
-    clientSteps 0 12 ++ schedSteps 12 ++ clientSteps 0 12 ++ clientSteps 1 12
+  clientSteps 0 4 ++ clientSteps 1 4 ++ [.tick 7] ++ schedSteps 12 ++ clientSteps 1 12 ++ schedSteps 8 ++
+    clientSteps 0 12 ++ schedSteps 30 ++ clientSteps 0 16 ++ clientSteps 1 16
 
 set_option maxRecDepth 8000 in
-example : terminated (reach demoProgs demoActs) = true ∧
-    (reach demoProgs demoActs).log.map (fun e => (e.task, e.status, e.thread)) = [(1, .run, 0), (0, .run, 0)] := by
+example : terminated (reach demoProgs [] demoActs) = true ∧
+    (reach demoProgs [] demoActs).log.map (fun e => (e.task, e.status, e.thread)) = [(1, .run, 0), (0, .run, 0)] := by
   decide
 
 end AwsVerif.Props.C08
